@@ -49,6 +49,7 @@ package fs
 //@   ensures atmost: cnt(Utimes) <= old(cnt(Utimes)) + 1
 //@   ensures nofollow: cnt(Utimes) > old(cnt(Utimes)) ==> arg(Utimes, 0) == p && arg(Utimes, 5) == unix.AT_SYMLINK_NOFOLLOW && arg(Utimes, 1) == arg(Utimes, 3) && arg(Utimes, 2) == arg(Utimes, 4)
 //@   ensures ok: tm != nil && result == nil ==> cnt(Utimes) == old(cnt(Utimes)) + 1
+//@   ensures last: cnt(Utimes) > old(cnt(Utimes)) ==> when(Utimes) == clk()
 
 // ---------------------------------------------------------------------------
 // copy.go: decisions on an existing destination entry
@@ -83,3 +84,61 @@ package fs
 //@   effects RemoveAll
 //@   ensures decision: (cnt(RemoveAll) > old(cnt(RemoveAll))) == (c.alwaysReplaceExistingDestPaths && targetFi != nil && !(srcFi.IsDir() && targetFi.IsDir()))
 //@   ensures target: cnt(RemoveAll) > old(cnt(RemoveAll)) ==> cnt(RemoveAll) == old(cnt(RemoveAll)) + 1 && arg(RemoveAll, 0) == target
+
+// ---------------------------------------------------------------------------
+// copy_linux.go
+// ---------------------------------------------------------------------------
+
+//@ pred specIsSymlinkMode(m os.FileMode) bool = m & os.ModeSymlink == os.ModeSymlink
+
+// timestamps: the requested time, else the source's atime/mtime; never through a symlink
+//@ func copier.copyFileTimestamp
+//@   property C13 C14
+//@   mode bv
+//@   requires c != nil && fi != nil
+//@   requires c.utime == nil ==> isptr(fi.Sys(), syscall.Stat_t) && asptr(fi.Sys(), syscall.Stat_t) != nil
+//@   effects Utimes
+//@   ensures once: result == nil ==> cnt(Utimes) == old(cnt(Utimes)) + 1
+//@   ensures atmost: cnt(Utimes) <= old(cnt(Utimes)) + 1
+//@   ensures nofollow: cnt(Utimes) > old(cnt(Utimes)) ==> arg(Utimes, 0) == name && arg(Utimes, 5) == unix.AT_SYMLINK_NOFOLLOW
+//@   ensures last: cnt(Utimes) > old(cnt(Utimes)) ==> when(Utimes) == clk()
+//@   ensures source_times: c.utime == nil && cnt(Utimes) > old(cnt(Utimes)) ==> arg(Utimes, 1) == asptr(fi.Sys(), syscall.Stat_t).Atim.Sec && arg(Utimes, 2) == asptr(fi.Sys(), syscall.Stat_t).Atim.Nsec && arg(Utimes, 3) == asptr(fi.Sys(), syscall.Stat_t).Mtim.Sec && arg(Utimes, 4) == asptr(fi.Sys(), syscall.Stat_t).Mtim.Nsec
+
+// owner first (chown clears setuid/setgid), then the mode - never on a symlink,
+// the requested symbolic or octal mode if any - then the times
+//@ func copier.copyFileInfo
+//@   property C13 C14
+//@   mode bv
+//@   requires c != nil && fi != nil && isptr(fi.Sys(), syscall.Stat_t) && asptr(fi.Sys(), syscall.Stat_t) != nil
+//@   effects ChownerCall Lchown Chmod Utimes
+//@   ensures chown_target: cnt(Lchown) > old(cnt(Lchown)) ==> arg(Lchown, 0) == name && cnt(Lchown) == old(cnt(Lchown)) + 1
+//@   ensures no_chmod_on_symlink: specIsSymlinkMode(fi.Mode()) ==> cnt(Chmod) == old(cnt(Chmod))
+//@   ensures chmod_once: result == nil && !specIsSymlinkMode(fi.Mode()) ==> cnt(Chmod) == old(cnt(Chmod)) + 1 && arg(Chmod, 0) == name
+//@   ensures chmod_atmost: cnt(Chmod) <= old(cnt(Chmod)) + 1
+//@   ensures mode_symbolic: cnt(Chmod) > old(cnt(Chmod)) && c.modeSet != nil ==> arg(Chmod, 1) == c.modeSet.Apply(fi.Mode())
+//@   ensures mode_octal: cnt(Chmod) > old(cnt(Chmod)) && c.modeSet == nil && c.mode != nil ==> arg(Chmod, 1) == (os.FileMode(*c.mode) & os.ModePerm) | ite(*c.mode & syscall.S_ISGID != 0, os.ModeSetgid, 0) | ite(*c.mode & syscall.S_ISUID != 0, os.ModeSetuid, 0) | ite(*c.mode & syscall.S_ISVTX != 0, os.ModeSticky, 0)
+//@   ensures mode_source: cnt(Chmod) > old(cnt(Chmod)) && c.modeSet == nil && c.mode == nil ==> arg(Chmod, 1) == fi.Mode()
+//@   ensures times_last: result == nil ==> cnt(Utimes) == old(cnt(Utimes)) + 1 && arg(Utimes, 0) == name && arg(Utimes, 5) == unix.AT_SYMLINK_NOFOLLOW && when(Utimes) == clk()
+//@   ensures order: result == nil ==> (cnt(Lchown) > old(cnt(Lchown)) && cnt(Chmod) > old(cnt(Chmod)) ==> when(Lchown) < when(Chmod)) && (cnt(Chmod) > old(cnt(Chmod)) ==> when(Chmod) < when(Utimes)) && (cnt(Lchown) > old(cnt(Lchown)) ==> when(Lchown) < when(Utimes))
+
+// ---------------------------------------------------------------------------
+// hardlink.go, hardlink_unix.go
+// ---------------------------------------------------------------------------
+
+//@ func getLinkInfo
+//@   property C13
+//@   requires isptr(fi.Sys(), syscall.Stat_t) ==> asptr(fi.Sys(), syscall.Stat_t) != nil
+//@   ensures nostat: !isptr(fi.Sys(), syscall.Stat_t) ==> !result1
+//@   ensures link: isptr(fi.Sys(), syscall.Stat_t) ==> result0 == asptr(fi.Sys(), syscall.Stat_t).Ino && result1 == (!fi.IsDir() && asptr(fi.Sys(), syscall.Stat_t).Nlink > 1)
+
+// the first name seen for an inode is the file, later names link to it
+//@ func getLinkSource
+//@   property C13
+//@   requires inodes != nil
+//@   requires isptr(fi.Sys(), syscall.Stat_t) ==> asptr(fi.Sys(), syscall.Stat_t) != nil
+//@   modifies inodes[*]
+//@   ensures noerr: result1 == nil
+//@   ensures notlinked: !(isptr(fi.Sys(), syscall.Stat_t) && !fi.IsDir() && asptr(fi.Sys(), syscall.Stat_t).Nlink > 1) ==> result0 == "" && (forall k uint64 :: haskey(inodes, k) == old(haskey(inodes, k)) && inodes[k] == old(inodes[k]))
+//@   ensures first: isptr(fi.Sys(), syscall.Stat_t) && !fi.IsDir() && asptr(fi.Sys(), syscall.Stat_t).Nlink > 1 && !old(haskey(inodes, asptr(fi.Sys(), syscall.Stat_t).Ino)) ==> result0 == "" && haskey(inodes, asptr(fi.Sys(), syscall.Stat_t).Ino) && inodes[asptr(fi.Sys(), syscall.Stat_t).Ino] == name
+//@   ensures later: isptr(fi.Sys(), syscall.Stat_t) && !fi.IsDir() && asptr(fi.Sys(), syscall.Stat_t).Nlink > 1 && old(haskey(inodes, asptr(fi.Sys(), syscall.Stat_t).Ino)) ==> result0 == old(inodes[asptr(fi.Sys(), syscall.Stat_t).Ino]) && inodes[asptr(fi.Sys(), syscall.Stat_t).Ino] == old(inodes[asptr(fi.Sys(), syscall.Stat_t).Ino])
+//@   ensures frame: forall k uint64 :: isptr(fi.Sys(), syscall.Stat_t) && k != asptr(fi.Sys(), syscall.Stat_t).Ino ==> haskey(inodes, k) == old(haskey(inodes, k)) && inodes[k] == old(inodes[k])
